@@ -1665,6 +1665,35 @@ class Interp:
             if op == "@":
                 mm = self.stubs.get("numpy.matmul")
                 return mm(a, b)
+            if op == "/" and getattr(self, "finite_div", False) and self.safety and not self.spec:
+                # contracts that claim finite results (numpy division by zero gives nan / inf, it never raises):
+                # every element of an array divisor is non-zero
+                sel = None
+                if not getattr(self.path, "_sqrt_pos_axiom", False):
+                    # trusted: the square root of a positive real is positive (the element-wise roots of an array are
+                    # uninterpreted applications whose instance axioms cannot mention a bound index)
+                    self.path._sqrt_pos_axiom = True
+                    xq = z3.Real(V.fresh_name("x"))
+                    usq = z3.Function("u_sqrt", z3.RealSort(), z3.RealSort())
+                    self.path.assume_optional("sqrt", Sym(z3.ForAll([xq], z3.Implies(xq > 0, usq(xq) > 0))))
+                if isinstance(b, A.MaskedSel) and isinstance(b.arr, SArr) and b.mask.ndim == b.arr.ndim:
+                    d, sel = b.arr, b.mask.snapshot()          # the selected elements: arr[p] where mask[p]
+                else:
+                    d = A.materialize(b) if isinstance(b, A.MaskedSel) else b
+                if isinstance(d, SArr):
+                    f = d.snapshot()
+                    qs = [z3.Int(V.fresh_name("d")) for _ in range(d.ndim)]
+                    rng = [z3.And(q >= 0, q < V.lift(n)) for q, n in zip(qs, d.shape)]
+                    idx = tuple(Sym(q) for q in qs)
+                    if sel is not None:
+                        rng.append(V.lift(sel(idx)))
+                    el = f(idx)
+                    body = V.compare("!=", el, 0)
+                    goal = Sym(z3.ForAll(qs, z3.Implies(z3.And(*rng), V.lift(body)))) if qs else body
+                    self.path.oblige(f"safety.finite_div@L{self.lineno}", goal,
+                                     {"kind": "safety", "line": self.lineno, "clause": "no element of the divisor is zero (finite result)"})
+                elif isinstance(d, Sym):
+                    self.path.oblige(f"safety.finite_div@L{self.lineno}", V.compare("!=", d, 0), {"kind": "safety", "line": self.lineno})
             return A.pointwise(op, a, b)
         if is_num(a) and is_num(b) and op in ("&", "|"):
             return V.sand(a, b) if op == "&" else V.sor(a, b)
